@@ -157,8 +157,13 @@ def qpoints_ownership(run):
     m = mod.method("QpointsPhonon", "_run")
     pref = QF + ":QpointsPhonon._run"
     omp = z3.Bool("use_openmp")
+    solver_calls = []
+
+    def solver_hook(ex, st, args, kwargs):
+        solver_calls.append((list(args), dict(kwargs), list(st.pc)))
+        return Opaque("dynmat buffer of run_dynamical_matrix_solver_c")
     hooks = {"phonopy._phonopy.use_openmp": lambda ex, st, args, kwargs: omp,
-             "run_dynamical_matrix_solver_c": lambda ex, st, args, kwargs: Opaque("dynmat buffer of run_dynamical_matrix_solver_c"),
+             "run_dynamical_matrix_solver_c": solver_hook,
              "QpointsPhonon._get_dynamical_matrix": lambda ex, st, args, kwargs: Opaque("dynamical matrix of this q (new array per run)")}
     ex = PyExec(mod, run.sink, pref, hooks=hooks, opaque_unknown=True, split=True)
     st = PState()
@@ -170,6 +175,17 @@ def qpoints_ownership(run):
         "_group_velocities": None}))
     n0 = len(run.sink.obls)
     outs = ex.call_function(st, m, [], self_ref=self_ref, cls="QpointsPhonon")
+    # plumbing: the compiled all-q solver must be given this object's dynamical matrix, q-points and NAC direction
+    # (the per-q Python path applies nac_q_direction at Gamma; dropping it here changes the spectrum at Gamma)
+    if not solver_calls:
+        raise CheckerError("QpointsPhonon._run never calls run_dynamical_matrix_solver_c")
+    rec0 = st.heap[self_ref.id].attrs
+    for (a_, k_, pc_) in solver_calls[:1]:
+        allargs = list(a_) + [k_.get("nac_q_direction")]
+        want = [rec0["_dynamical_matrix"], rec0["_qpoints"], rec0["_nac_q_direction"]]
+        for nm, w in zip(("dynamical matrix", "q-points", "nac_q_direction"), want):
+            run.sink.add(pref, "plumbing", pc_, z3.BoolVal(any(x is w for x in allargs)),
+                         meta={"label": "run_dynamical_matrix_solver_c receives this object's %s" % nm})
     own = [o for o in run.sink.obls[n0:] if o.kind == "ownership"]
     if not own:
         raise CheckerError("QpointsPhonon._run: no ownership obligation generated (has the output assembly changed?)")
